@@ -115,7 +115,8 @@ func (i *importedString) Equals(other Value) bool {
 func (i *importedString) StrictEquals(other Value) bool {
 	switch otherStr := other.(type) {
 	case asciiString:
-		if i.u != nil {
+		// no need to scan: only an ASCII string can be equal byte for byte (i.u must not be read before scanned is set)
+		if i.scanned.Load() && i.u != nil {
 			return false
 		}
 		return i.s == string(otherStr)
